@@ -222,7 +222,8 @@ def coverage(db, fn, enum_path, pred, param=1):
         if kind == "catch-all":
             result[v] = {"required": paths, "missing": paths, "arm": "catch-all", "ln": arm["sp"][0]}
             continue
-        reads = read_paths(db, fn, (arm["sp"][0], arm["sp"][1], arm["sp"][2], arm["sp"][3]), param)
+        # reads in the arm *body* only: a pattern that merely binds a field (and never uses it) does not count
+        reads = read_paths(db, fn, tuple(arm["body_sp"]), param)
         missing = [p for p in paths if not has_prefix(reads, ("as:" + v,) + p) and not _covered_by_whole(reads, v, p)]
         result[v] = {"required": paths, "missing": missing, "arm": "explicit", "ln": arm["sp"][0]}
     return m, result
